@@ -1,6 +1,7 @@
 package main
 
 import (
+	"crypto/sha256"
 	"fmt"
 	"go/types"
 	"strings"
@@ -542,3 +543,99 @@ func (st *State) symItoa(v Int) []Value {
 	}
 	return out
 }
+
+// ---- ideal signatures and opaque keys ----
+
+// keyID identifies a key by the heap object that holds it (public keys obtained through
+// PrivateKey.Public() share the object of their private key).
+func keyID(v Value) (int, bool) {
+	switch x := v.(type) {
+	case Iface:
+		if x.T == nil {
+			return 0, false
+		}
+		return keyID(x.V)
+	case Ptr:
+		if x.Obj == 0 {
+			return 0, false
+		}
+		return x.Obj, true
+	}
+	return 0, false
+}
+
+type sigEntry struct {
+	key    int
+	digest string
+}
+
+func pseudoSig(key int, digest []byte, n int) []byte {
+	h := sha256Sum(append([]byte(fmt.Sprintf("symgo-sig:%d:", key)), digest...))
+	out := make([]byte, n)
+	for i := range out {
+		out[i] = h[i%32] ^ byte(i/32)
+	}
+	return out
+}
+
+func registerCryptoIntrinsics(in *Interp) {
+	I := in.intrins
+	I["crypto/x509.MarshalPKIXPublicKey"] = func(st *State, fr *Frame, a []Value, _ ssa.Value) (Value, int) {
+		id, ok := keyID(a[0])
+		if !ok {
+			return done(Tuple{Slice{}, st.mkError("x509: unsupported public key type")})
+		}
+		return done(Tuple{st.newByteSlice([]byte(fmt.Sprintf("PKIX-SPKI-of-key-%06d", id))), Iface{}})
+	}
+	// ECDSA: deterministic ideal signatures. Sign records (key, digest); Verify accepts exactly the
+	// recorded signature of a recorded (key, digest) pair.
+	sign := func(st *State, key int, digest Slice) Slice {
+		d, ok := st.concBytes(digest)
+		if !ok {
+			unsupported("signing a symbolic digest (digests are concrete under the hash oracle)")
+		}
+		st.sigs = append(st.sigs[:len(st.sigs):len(st.sigs)], sigEntry{key, string(d)})
+		return st.newByteSlice(pseudoSig(key, d, 16))
+	}
+	I["(*crypto/ecdsa.PrivateKey).Sign"] = func(st *State, fr *Frame, a []Value, _ ssa.Value) (Value, int) {
+		id, _ := keyID(a[0])
+		return done(Tuple{sign(st, id, a[2].(Slice)), Iface{}})
+	}
+	I["crypto/ecdsa.SignASN1"] = func(st *State, fr *Frame, a []Value, _ ssa.Value) (Value, int) {
+		id, _ := keyID(a[1])
+		return done(Tuple{sign(st, id, a[2].(Slice)), Iface{}})
+	}
+	I["crypto/ecdsa.VerifyASN1"] = func(st *State, fr *Frame, a []Value, _ ssa.Value) (Value, int) {
+		id, ok := keyID(a[0])
+		if !ok {
+			return done(Bool{})
+		}
+		d, okd := st.concBytes(a[1].(Slice))
+		if !okd {
+			unsupported("verifying a symbolic digest")
+		}
+		signed := false
+		for _, s := range st.sigs {
+			if s.key == id && s.digest == string(d) {
+				signed = true
+			}
+		}
+		if !signed {
+			return done(Bool{})
+		}
+		want := st.newByteSlice(pseudoSig(id, d, 16))
+		return done(mkBoolT(st.bytesEq(a[2].(Slice), want)))
+	}
+	I["(*crypto/ecdsa.PrivateKey).Public"] = func(st *State, fr *Frame, a []Value, _ ssa.Value) (Value, int) {
+		p := a[0].(Ptr)
+		t := st.in.prog.ImportedPackage("crypto/ecdsa").Type("PublicKey").Type()
+		return done(Iface{T: types.NewPointer(t), V: Ptr{Obj: p.Obj, Path: extend(p.Path, 0)}})
+	}
+	// verifNewECDSAKey() *ecdsa.PrivateKey: an opaque key object
+	I["verif:verifNewECDSAKey"] = func(st *State, fr *Frame, a []Value, _ ssa.Value) (Value, int) {
+		t := st.in.prog.ImportedPackage("crypto/ecdsa").Type("PrivateKey").Type()
+		return done(Ptr{Obj: st.alloc(t)})
+	}
+}
+
+func sha256Sum(b []byte) [32]byte { return sha256.Sum256(b) }
